@@ -74,6 +74,11 @@ def _cases(tier):
             if op == "in" and isinstance(seq[0], list):
                 continue  # `x in snapshot(<non-literal>)` is outside the documented usage of `in`
             cases.append({"reeval": op, "argseq": seq})
+    # the changing value sits inside a container of the argument: behind a literal key, a key written as a name / attribute /
+    # f-string, in a tuple, in a constructor call
+    for wrap in ("{'k': X}", "{KEY: X}", "{Col.A: X}", "{f'k{1}': X}", "{'a': 0, KEY: X}", "{KEY: 0, 'b': X}", "(0, X)", "[[X]]", "DCW(v=X)", "{'o': {KEY: [X]}}"):
+        for seq in ([5, 6], [5, 5, 6]):
+            cases.append({"reeval": "wrapped", "wrap": wrap, "argseq": seq})
     # several handles of one sub-snapshot key obtained before the first comparison, then compared through in every order
     for op in ("<=", ">=", "in"):
         for keys in (["k", "k"], ["k", "j", "k"], ["k", "k", "k"]):
@@ -298,6 +303,8 @@ def _judge_reeval(c):
         return _judge_reeval_mut(c)
     if c["reeval"] == "handles":
         return _judge_handles(c)
+    if c["reeval"] == "wrapped":
+        return _judge_wrapped(c)
     if c["reeval"] == "twins":
         return _judge_twins(c)
     op, seq = c["reeval"], c["argseq"]
@@ -314,6 +321,27 @@ def _judge_reeval(c):
         return [("internal-error", r["error"]["type"] + ": " + r["error"]["msg"][:200])], ctx
     if not r["raised"]:
         return [("changed-argument-not-rejected", "argument sequence %r, no exception; file:\n%s" % (seq, ctx["after"][-300:]))], ctx
+    return [None], ctx
+
+
+def _judge_wrapped(c):
+    from ..drivers.inline import run_inline
+
+    seq, wrap = c["argseq"], c["wrap"]
+    pre = ("from dataclasses import dataclass\nfrom enum import Enum\nfrom inline_snapshot import snapshot\n\n\nKEY = 'kn'\n\n\nclass Col(Enum):\n    A = 1\n\n\n"
+           "@dataclass\nclass DCW:\n    v: object\n\n\n")
+    first = wrap.replace("X", repr(seq[0]))
+    src = pre + "ARGS = %r\nit = iter(ARGS)\n\n\ndef f():\n    return %s == snapshot(%s)\n\n\ndef test_0():\n    for _ in ARGS:\n        f()\n" % (seq, first, wrap.replace("X", "next(it)"))
+    ctx = {"src": src}
+    for flags in ([], ["create", "fix", "trim"]):
+        r = run_inline({"test_something.py": src}, flags)
+        ctx["after"] = r["files"].get("test_something.py", "")
+        if r["error"]:
+            return [("internal-error", r["error"]["type"] + ": " + r["error"]["msg"][:200])], ctx
+        if not r["raised"]:
+            return [("changed-argument-not-rejected", "argument %s with values %r (flags %s): no exception" % (wrap, seq, flags))], ctx
+        if ctx["after"] != src:
+            return [("changed-argument-recorded", "flags %s:\n%s" % (flags, ctx["after"][-300:]))], ctx
     return [None], ctx
 
 
